@@ -46,6 +46,11 @@ Int1 == Int0
         \cup {Bin("property", [k |-> "list", items |-> <<N(3), PV("n", "Int")>>], PV("i", "Int")),
               Bin("property", [k |-> "list", items |-> <<N(5), N(6)>>], PV("i", "Int"))}    \* constant list, unresolved index
         \cup {Bin("property", SrcDatum, N(0))}
+        \* wrappers that mean nothing (an operation's and a coercion's no-op) around what is still to be evaluated: every
+        \* pass has to look inside them
+        \cup {Un(w, a) : w \in {"noop", "co_noop"}, a \in {[k |-> "c_tip_slot"], PV("n", "Int"), Un("c_slot_to_time", PV("n", "Int")),
+                                                          Bin("add", [k |-> "c_tip_slot"], N(200))}}
+        \cup {Bin("add", Un("noop", [k |-> "c_tip_slot"]), N(200)), Bin("add", Un("co_noop", Un("c_slot_to_time", N(7))), PV("n", "Int"))}
 Int2 == Int1 \cup {Bin("sub", Bin("sub", a, b), c) : a \in {PV("n", "Int")}, b \in {N(7), [k |-> "c_tip_slot"]}, c \in Int0}
              \cup {Bin("sub", a, Bin("sub", b, c)) : a \in {PV("n", "Int")}, b \in {N(7)}, c \in Int0}
              \cup {Bin("add", Un("negate", a), Bin("property", SrcDatum, N(0))) : a \in Int0}
@@ -55,6 +60,8 @@ ParamClass == {AssetsOf(PV("pol", "Bytes"), B(<<97>>), N(2)), AssetsOf(PolicyA, 
 Asset0 == {Ada(N(5)), Ada(PV("n", "Int")), Tok(N(2)), Fees, SrcAssets, Un("c_min_utxo", N(0))} \cup ParamClass
 Asset1 == Asset0
           \cup {Bin(o, a, b) : o \in {"add", "sub"}, a \in Asset0, b \in Asset0}
+          \cup {Un(w, a) : w \in {"noop", "co_noop"}, a \in {Un("c_min_utxo", N(0)), Fees, SrcAssets, Ada(PV("n", "Int"))}}
+          \cup {Bin("add", Un("noop", Un("c_min_utxo", N(0))), Ada(N(5)))}
           \cup {Un("negate", a) : a \in {Tok(N(2)), Fees}}
           \cup {Ada(e) : e \in {Bin("add", PV("n", "Int"), N(7)), Bin("property", SrcDatum, N(0))}}
 Asset2 == Asset1 \cup {Bin("sub", Bin("sub", SrcAssets, a), Fees) : a \in Asset0 \ {SrcAssets}}
